@@ -469,8 +469,14 @@ func checkBatch(c *core.Ctx, mi int, items []Item) {
 	for i, it := range items {
 		name := fmt.Sprintf("k%05d", i)
 		// directory name differs from the package name on purpose
-		t["p/"+name+"-dir/x.go"] = "package " + name + "\n\ntype T struct{}\n"
+		// (two more types, one sorting before and one after T: the judged generator renders nothing for them
+		// and answers ErrIgnore / ErrSkip - which says nothing about what it rendered for T)
+		t["p/"+name+"-dir/x.go"] = "package " + name + "\n\ntype T struct{}\n\ntype Ign struct{}\n\ntype Zz struct{}\n"
 		key := m.path + "/p/" + name + "-dir.T"
+		for _, bt := range []map[string]pipe.Action{byType, byType2} {
+			bt[m.path+"/p/"+name+"-dir.Ign"] = pipe.Action{Ret: "ignore"}
+			bt[m.path+"/p/"+name+"-dir.Zz"] = pipe.Action{Ret: "skip"}
+		}
 		byType[key] = actionFor(it.Frags, it.Route, resolveImports(importSets[it.Imports], m))
 		if it.Second != nil {
 			second = true
